@@ -115,20 +115,27 @@ def run_sim(case, res):
     arcs = perc.kept_arcs(nodes, nbrs, dur, delay, removed=R0)
     dist, preds = perc.dijkstra([u for u in nodes if u not in R0], arcs, I0, start=tmin)
     calls = {'trans': 0, 'rec': 0}
+    argbad = []          # each rule must be handed its own extra arguments (different values and arity)
     if case['form'] == 'sep':
-        def ttf(u, v, tag):
+        def ttf(u, v, *tags):
             calls['trans'] += 1
+            if tags != ('a',):
+                argbad.append(('trans_time_fxn', tags))
             return delay[(u, v)]
 
-        def rtf(u, tag):
+        def rtf(u, *tags):
             calls['rec'] += 1
+            if tags != ('b', 'bb'):
+                argbad.append(('rec_time_fxn', tags))
             return dur[u]
-        kw = dict(trans_time_fxn=ttf, rec_time_fxn=rtf, trans_time_args=('a',), rec_time_args=('b',))
+        kw = dict(trans_time_fxn=ttf, rec_time_fxn=rtf, trans_time_args=('a',), rec_time_args=('b', 'bb'))
     else:
-        def joint(node, sus, tag):
+        def joint(node, sus, *tags):
             calls['rec'] += 1
+            if tags != ('c', 'cc', 'ccc'):
+                argbad.append(('trans_and_rec_time_fxn', tags))
             return {v: delay[(node, v)] for v in sus}, dur[node]
-        kw = dict(trans_and_rec_time_fxn=joint, trans_and_rec_time_args=('c',))
+        kw = dict(trans_and_rec_time_fxn=joint, trans_and_rec_time_args=('c', 'cc', 'ccc'))
     kw.update(initial_infecteds=list(I0), tmin=tmin, tmax=tmax, return_full_data=case['full'])
     if R0:
         # "iterable of nodes": list, tuple, set or a one-shot iterator / generator (e.g. G.neighbors(x))
@@ -141,6 +148,10 @@ def run_sim(case, res):
         out = EoN.fast_nonMarkov_SIR(G, **kw)
     except Exception as e:
         viol(res, 'fast_nonMarkov_SIR|%s|exception:%s' % (mode, simcase.exc_key(e)), {'err': repr(e)})
+        return
+    bump(res, 'rule_extra_argument_runs')
+    if argbad:
+        viol(res, 'fast_nonMarkov_SIR|%s|rule_receives_its_own_extra_arguments' % mode, {'rule': argbad[0][0], 'received': repr(argbad[0][1])})
         return
     # oracle event list
     inf_t = {v: dist[v] for v in dist if dist[v] < tmax}
